@@ -17,6 +17,8 @@ def parseSpec (s : String) : FSpec :=
   match s.splitOn ":" with
   | ["fn", f] => .fn (f.toNat?.getD 0)
   | ["mem", f, t] => .mem (f.toNat?.getD 0) (nameIdx t)
+  -- `sc:<fid>:T` = `sigc::signal_connect(signal, *T, &Trk::method<fid % 8>)`: the same functor as `mem`
+  | ["sc", f, t] => .mem (8 + (f.toNat?.getD 0) % 8) (nameIdx t)   -- ids 8..15: never queried with `live?`
   | ["trk", f, t] => .trk (f.toNat?.getD 0) (nameIdx t) none
   | ["trk", f, t, u] => .trk (f.toNat?.getD 0) (nameIdx t) (some (nameIdx u))
   | ["bref", f, t] => .bref (f.toNat?.getD 0) (nameIdx t)
